@@ -137,6 +137,21 @@ def check_containers(ctx, R="C05.containers"):
             ctx.ok(R, c, "the randomness test ranges over the converted elements")
         elif okt is False:
             raise AnalysisError("shape not recognised: randomness test of toDistribution's container branch")
+    # any other randomness test of the function that ranges over the RAW container (e.g. an early "nothing to wrap" exit)
+    for t in walk_local(fn):
+        if not (isinstance(t, ast.Call) and dotted(t.func) in ("any", "all") and t.args and t not in [x for c in builds for x, _ in lib.guard_tests(c, fn)]):
+            continue
+        g = t.args[0]
+        if isinstance(g, (ast.GeneratorExp, ast.ListComp)) and len(g.generators) == 1 and isinstance(g.elt, ast.Call) and dotted(g.elt.func) in ("isLazy", "needsSampling", "needsLazyEvaluation"):
+            it = g.generators[0].iter
+            if isinstance(it, ast.Name) and it.id == v:
+                ctx.finding(
+                    R,
+                    t,
+                    "randomness test on unconverted elements",
+                    f"toDistribution tests `{norm_text(t, 70)}` on the raw elements of the container: an inner list / tuple holding a random value is an ordinary "
+                    f"Python object (not lazy), so `[[Range(0, 1), 5], 7]` is taken for a constant and its random element is never sampled",
+                )
     fd = model.func(DI, "FunctionDistribution.__init__")
     t = {lib.role_text(fd, n.value) for n in walk_local(fd) if isinstance(n, ast.Assign)}
     pa, pk = fd.args.args[2].arg, fd.args.args[3].arg
